@@ -218,8 +218,8 @@ def _g1(ctx: Context, handler: str, prof: PartialProfile) -> None:
         ck.violated("C19.G1", f"{ctx.fkey(f)}:no-wakeup", f"{short}: no waiter is ever completed (no set_result)", f.loc())
         return
     for n, c in sets:
-        recv = " ".join(ast.unparse(c.func.value).split())
-        guards = prof._done_guards(cfg, recv)
+        recv = prof._path(ctx, cfg, n, c.func.value)
+        guards = prof._done_guards(ctx, cfg, recv)
         p = cfg.find_path(cfg.entry.id, n.id, avoid_edges=guards)
         ck.check(
             "C19.G1",
